@@ -39,7 +39,7 @@ func init() {
 		Technique: "model-free cache monitor: real caching client against the simulated node; per-call comparison with chain ground truth and with an uncached client; fetch/fault/announcement accounting from the node's request record; real goroutines for the concurrent mixes",
 		Rule: "case i runs workload (i + i/16) mod 8 (seq x4, conc x2, head-seq, head-poll) with maxreads 1..6 drawn per case; seq: 30-60 Get calls over 1-3 keys (or 7-9 keys for the five-segment rule) x call shapes {h, b, l+h and l+b with 5 address/topic filters, b+r, b+t}, faults (rpc-error, http-status, cut, truncate) injected into ~15% of segment or log/receipt/trace fetches; " +
 			"conc: 2-12 goroutines x 2-5 calls over same/overlapping ranges and different filters on shared segments, faults by request ordinal; head-seq: 40-70 steps of grow/reorg/repeat/Latest(n below/at/above/0) with faults on direct fetches; head-poll: 1-4 goroutines calling Latest while the chain grows/reorgs and the 2 ms poller is failed and reset. " +
-			"Signature = (workload, maxreads, fault kinds hit, shapes used, outcome classes); trivial = a case without a single cache hit. Chains end every trace_block result with 1–2 reward traces (null transaction hash and position) and every third block holds no transaction.",
+			"Signature = (workload, maxreads, fault kinds hit, shapes used, outcome classes); trivial = a case without a single cache hit. Chains end every trace_block result with 1–2 reward traces (null transaction hash and position) and every third block holds no transaction. Seventh round: maxreads 0..6 in the sequential and head-sequence workloads (0 = no reuse at all); half of the same-range concurrent mixes run against a source whose downloads take 5–25 ms with maxreads 1..3; concurrent readers that never return are reported when the source has none of their requests in flight and each waits for a mutex of the segment cache (three samples in a row).",
 		Assumptions: []string{
 			"bounded reuse (permissive reading of 'serves at most the configured number of successive reads before the source is asked again'): between two successful fetches of a key at most maxreads reads are served FROM CACHE (the fetching read itself is not counted); the tighter count (maxreads in total) is reported as an observation only",
 			"concurrent mixes: reads_ok(key) <= fetches_ok(key) x (maxreads + max calls in flight), the in-flight maximum being measured per case",
